@@ -250,10 +250,23 @@ class ComponentLevel2( ComponentLevel1 ):
 
       # Now we turn names into actual objects
       for obj_name, nodelist, op in names:
-        if obj_name[0][0] == "s":
+        root, root_idx = obj_name[0]
+        # A variable of construct() that holds a part of the component
+        # ( sub = s.sub = Sub(); ... sub.out ... ) is a name for it, too
+        captured = _closure.get( root ) if root != "s" and root not in func.__code__.co_varnames else None
+        if isinstance( captured, list ): # ... if the hardware in it has a place in the hierarchy
+          Q = list( captured )
+          while Q and isinstance( Q[0], list ): Q = Q[0] + Q[1:]
+          if not ( Q and isinstance( Q[0], NamedObject ) and hasattr( Q[0]._dsl, "elaborate_top" ) ):
+            captured = None
+        elif not ( isinstance( captured, NamedObject ) and hasattr( captured._dsl, "elaborate_top" ) ):
+          captured = None
+        if root == "s" or captured is not None:
           objs    = set()
           partial = set() # signals accessed as s.x[i] with a variable i
-          lookup_variable( s, 1, 1 )
+          if   root == "s": lookup_variable( s, 1, 1 )
+          elif root_idx:    expand_array_index( captured, 0, 1, 0, root_idx )
+          else:             lookup_variable( captured, 1, 1 )
 
           # The writes of a function are checked against the blocks that
           # call it
